@@ -1,7 +1,16 @@
 import IbModel.Util.Wire
 import IbModel.Model.Assertions
-/-! Driver handlers for C20: `ASSERT <eq|unord|kv|grp|maps> <A> | <B>`, `ASSERT size <A> <n>`,
-    `ASSERT contains <A> <x>`, `ASSERT <all|any|none> <pred> <A>` ↦ `PASS` | `PANIC`. -/
+/-! Driver handlers for C20: `ASSERT <eq|unord|kv|grp|maps>[/P|/S] <A> | <B>`, `ASSERT size <A> <n>`,
+    `ASSERT contains[/P|/S] <A> <x>`, `ASSERT <all|any|none> <pred> <A>`,
+    `ASSERT jsonl <F> | <E>`, `ASSERT csv <F> | <E>` ↦ `PASS` | `PANIC`.
+
+    The suffix names the Rust element/key/value type the harness instantiated the generic assertion
+    with: none = `i64`, `/P` = `struct P(i64, i64)` (integer `x` ↦ `embP x`), `/S` = `String`
+    (`x` ↦ `embS x`); the model evaluates the same generic definition at `Int`, `Int × Int`, `String`
+    with the key orders `leInt`, `lePair`, `leStr`.
+    File `F`: `missing` (cannot be opened) | `-` (no line) | comma-separated line classes —
+    JSONL: `k:v` record, `_` blank, `!` bad; CSV: `h` header `k,v`, `hs` header `v,k`, `a:b` row `a,b`,
+    `_` empty line, `!` bad. `E`: `-` | records `k:v`. -/
 namespace IB.D20
 open IB.Wire IB.Assertions
 
@@ -42,34 +51,71 @@ def pred? (s : String) : Option (Int → Bool) :=
   | ["ne", n] => (parseInt? n).map (fun n x => x != n)
   | _ => none
 
-def handleAssert : List String → String
+/-- the element type of a request: how the integers on the wire are embedded -/
+structure Ty (τ : Type) where
+  emb : Int → τ
+  le : τ → τ → Bool
+
+def tyI : Ty Int := ⟨id, leInt⟩
+def tyP : Ty (Int × Int) := ⟨embP, lePair⟩
+def tyS : Ty String := ⟨embS, leStr⟩
+
+def mapKv {τ : Type} (t : Ty τ) (l : List (Int × Int)) : List (τ × τ) :=
+  l.map (fun r => (t.emb r.1, t.emb r.2))
+
+def mapGrp {τ : Type} (t : Ty τ) (l : List (Int × List Int)) : List (τ × List τ) :=
+  l.map (fun r => (t.emb r.1, r.2.map t.emb))
+
+/-- the assertions that are generic in the element type, at one type -/
+def handleTyped {τ : Type} [DecidableEq τ] (t : Ty τ) : List String → String
   | ["eq", a, "|", b] =>
       match ints? a, ints? b with
-      | some a, some b => verdict (assertEqual a b)
+      | some a, some b => verdict (assertEqual (a.map t.emb) (b.map t.emb))
       | _, _ => "BAD-OP"
   | ["unord", a, "|", b] =>
       match ints? a, ints? b with
-      | some a, some b => verdict (assertUnordered a b)
+      | some a, some b => verdict (assertUnordered (a.map t.emb) (b.map t.emb))
       | _, _ => "BAD-OP"
   | ["kv", a, "|", b] =>
       match kvs? a, kvs? b with
-      | some a, some b => verdict (assertKv leInt a b)
+      | some a, some b => verdict (assertKv t.le (mapKv t a) (mapKv t b))
       | _, _ => "BAD-OP"
   | ["grp", a, "|", b] =>
       match grps? a, grps? b with
-      | some a, some b => verdict (assertGrouped leInt a b)
+      | some a, some b => verdict (assertGrouped t.le (mapGrp t a) (mapGrp t b))
       | _, _ => "BAD-OP"
   | ["maps", a, "|", b] =>
       match kvs? a, kvs? b with
-      | some a, some b => verdict (assertMaps (mkMap a) (mkMap b))
-      | _, _ => "BAD-OP"
-  | ["size", a, n] =>
-      match ints? a, parseNat? n with
-      | some a, some n => verdict (assertSize a n)
+      | some a, some b => verdict (assertMaps (mkMap (mapKv t a)) (mkMap (mapKv t b)))
       | _, _ => "BAD-OP"
   | ["contains", a, x] =>
       match ints? a, parseInt? x with
-      | some a, some x => verdict (assertContains a x)
+      | some a, some x => verdict (assertContains (a.map t.emb) (t.emb x))
+      | _, _ => "BAD-OP"
+  | _ => "BAD-OP"
+
+def jline? (s : String) : Option JLine :=
+  if s == "_" then some .blank
+  else if s == "!" then some .bad
+  else (kvRow? s).map (fun r => .record r.1 r.2)
+
+def cline? (s : String) : Option CLine :=
+  if s == "_" then some .empty
+  else if s == "!" then some .bad
+  else if s == "h" then some .hdr
+  else if s == "hs" then some .hdrSwapped
+  else (kvRow? s).map (fun r => .row r.1 r.2)
+
+/-- `missing` ↦ `some none`; malformed ↦ `none` -/
+def file? {L : Type} (line? : String → Option L) (s : String) : Option (Option (List L)) :=
+  if s == "missing" then some none
+  else if s == "-" then some (some [])
+  else ((s.splitOn ",").mapM line?).map some
+
+def handleAssert : List String → String
+  | ["size", a, n] =>
+      match ints? a, parseNat? n with
+      | some a, some n => verdict (assertSize a n)
       | _, _ => "BAD-OP"
   | ["all", p, a] =>
       match pred? p, ints? a with
@@ -83,6 +129,20 @@ def handleAssert : List String → String
       match pred? p, ints? a with
       | some p, some a => verdict (assertNone p a)
       | _, _ => "BAD-OP"
+  | ["jsonl", f, "|", e] =>
+      match file? jline? f, kvs? e with
+      | some f, some e => verdict (assertJsonl JLine.isBlank JLine.parse f e)
+      | _, _ => "BAD-OP"
+  | ["csv", f, "|", e] =>
+      match file? cline? f, kvs? e with
+      | some f, some e => verdict (assertCsv CLine.isEmpty CLine.parse f e)
+      | _, _ => "BAD-OP"
+  | kind :: rest =>
+      match kind.splitOn "/" with
+      | [k] => handleTyped tyI (k :: rest)
+      | [k, "P"] => handleTyped tyP (k :: rest)
+      | [k, "S"] => handleTyped tyS (k :: rest)
+      | _ => "BAD-OP"
   | _ => "BAD-OP"
 
 def handlers : List (String × (List String → String)) := [("ASSERT", handleAssert)]
